@@ -516,17 +516,62 @@ def c09(facts, tier):
                           "tables depends on the random draw, so independently built contexts transform differently" %
                           [c for c in callers if c != tm], facts.loc(tp))
         from r_encbound import render
-        from facts import walk as _w, callee as _c, strip as _s, local_of as _lo
+        from facts import walk as _w, callee as _c, strip as _s, local_of as _lo, Defs as _Defs
         body = facts.hir[tm]
-        loops = [x for x in _w(body) if x.get("k") == "For"]
+        defs = _Defs(body)
+        plid = {q["pat"]["name"]: q["pat"]["lid"] for q in facts.items[tm]["params"] if q["pat"].get("k") == "PBind"}
+
+        def mentions_degree_half(e):
+            cl = defs.closure(e)
+            has_deg = any(y.get("k") == "Path" and y.get("res") == "local" and y.get("lid") == plid.get("degree") for y in cl)
+            half = any(y.get("k") == "Bin" and ((y.get("op") == "/" and _s(y["b"]).get("v", "").split("_")[0] == "2") or
+                                                (y.get("op") == ">>" and _s(y["b"]).get("v", "").split("_")[0] == "1")) for y in cl)
+            return has_deg and half
+
+        # the square of the root found
+        squares = set()
+        for x in _w(body):
+            if x.get("k") == "Let" and x["pat"].get("k") == "PBind" and "init" in x:
+                c0 = _s(x["init"])
+                if (_c(c0) or {}).get("name") == "multiply_u64_mod" and len(c0.get("args", [])) >= 2 and \
+                        _lo(c0["args"][0]) and _lo(c0["args"][1]) and _lo(c0["args"][0])[0] == _lo(c0["args"][1])[0]:
+                    squares.add(x["pat"]["lid"])
         ok = False
-        for L in loops:
-            r = render(L["iter"])
-            has_min = any(x.get("k") == "If" and _s(x["c"]).get("k") == "Bin" and _s(x["c"]).get("op") == "<" for x in _w(L["body"]))
-            steps = [x for x in _w(L["body"]) if x.get("k") == "Assign" and (_c(_s(x["rhs"])) or {}).get("name") == "multiply_u64_mod"]
-            sq = any((_c(x) or {}).get("name") == "multiply_u64_mod" and len(x.get("args", [])) >= 2 and
-                     _lo(x["args"][0]) and _lo(x["args"][1]) and _lo(x["args"][0])[0] == _lo(x["args"][1])[0] for x in _w(body))
-            if "degree" in r and "/ 2" in r and "+ 1" in r.replace("1 + degree", "degree + 1") and has_min and steps and sq:
+        for L in _w(body):
+            if L.get("k") == "For":
+                trip = mentions_degree_half(L["iter"])
+            elif L.get("k") == "While":
+                trip = mentions_degree_half(L["c"])
+            else:
+                continue
+            # step: cur = multiply_u64_mod(cur, square, ..)
+            cur = None
+            for x in _w(L["body"]):
+                if x.get("k") == "Assign" and _lo(x["lhs"]) and (_c(_s(x["rhs"])) or {}).get("name") == "multiply_u64_mod":
+                    al = [_lo(a)[0] for a in _s(x["rhs"])["args"] if _lo(a)]
+                    if _lo(x["lhs"])[0] in al and any(a in squares for a in al):
+                        cur = _lo(x["lhs"])[0]
+            if cur is None or not trip:
+                continue
+            # minimum: `if cur < acc {acc = cur}` or `acc = acc.min(cur)` / `min(acc, cur)`
+            has_min = False
+            for x in _w(L["body"]):
+                if x.get("k") == "If":
+                    c0 = _s(x["c"])
+                    if c0.get("k") == "Bin" and c0.get("op") in ("<", ">"):
+                        small, big = (c0["a"], c0["b"]) if c0["op"] == "<" else (c0["b"], c0["a"])
+                        if _lo(small) and _lo(big) and _lo(small)[0] == cur and any(
+                                y.get("k") == "Assign" and _lo(y["lhs"]) and _lo(y["lhs"])[0] == _lo(big)[0] and
+                                _lo(y["rhs"]) and _lo(y["rhs"])[0] == cur for y in _w(x["th"])):
+                            has_min = True
+                if x.get("k") == "Assign" and _lo(x["lhs"]):
+                    r0 = _s(x["rhs"])
+                    nm = (_c(r0) or {}).get("name") or r0.get("name")
+                    if nm == "min":
+                        al = [_lo(a)[0] for a in ([r0["recv"]] if r0.get("k") == "MCall" else []) + r0.get("args", []) if _lo(a)]
+                        if cur in al and _lo(x["lhs"])[0] in al:
+                            has_min = True
+            if has_min:
                 ok = True
         if ok:
             rep.ok(R, "scan", "the scan covers (degree+1)/2 successive odd powers (step root^2) and keeps the minimum", facts.loc(tm))
